@@ -8,6 +8,7 @@ import time
 from . import runner
 
 ROOT = os.path.dirname(os.path.dirname(os.path.abspath(__file__)))
+OUT = os.environ.get('VF_OUT') or ROOT      # evidence/ and replays/ go here (self-tests on scratch copies set VF_OUT)
 
 ASSUMPTIONS_GLOBAL = [
     'z3 5.1 / cvc5 are sound',
@@ -58,7 +59,7 @@ def match_known(prop, rec, known):
 
 
 def write_replay(prop, rec):
-    d = os.path.join(ROOT, 'replays', prop)
+    d = os.path.join(OUT, 'replays', prop)
     os.makedirs(d, exist_ok=True)
     blob = json.dumps(rec, sort_keys=True, default=str)
     h = hashlib.sha256(blob.encode()).hexdigest()[:16]
@@ -130,8 +131,12 @@ def decide(prop, agg, clauses_meta, known):
         if path in seen_files:
             continue
         seen_files.add(path)
+        if len(seen_files) > 12:
+            continue        # every violation has its replay file; the report lists the first dozen
         lines.append('VIOLATION property=%s replay=%s%s' % (prop, path, suffix))
         lines.append('  obligation %s %s' % (rec['obligation'], json.dumps(rec.get('replay', {}), default=str)[:500]))
+    if len(seen_files) > 12:
+        lines.append('  ... and %d more violated (obligation, input shape) pairs, replay files next to the ones above' % (len(seen_files) - 12))
     if viol:
         exit_code = 1
     elif checker_errors:
@@ -150,7 +155,7 @@ def decide(prop, agg, clauses_meta, known):
 
 
 def write_evidence(prop, tier, seed, level, agg, verdict, extra, wall_s):
-    os.makedirs(os.path.join(ROOT, 'evidence'), exist_ok=True)
+    os.makedirs(os.path.join(OUT, 'evidence'), exist_ok=True)
     by_clause = {k: dict(obligations=v[0], discharged=v[1]) for k, v in sorted(agg['by_clause'].items())}
     cov = dict(
         obligations=agg['obligations'],
@@ -181,7 +186,7 @@ def write_evidence(prop, tier, seed, level, agg, verdict, extra, wall_s):
               assumptions=ASSUMPTIONS_GLOBAL + list((extra or {}).get('assumptions_extra', [])),
               wall_s=round(wall_s, 2), violations=verdict['violations'])
     cov.pop('assumptions_extra', None)
-    p = os.path.join(ROOT, 'evidence', prop + '.json')
+    p = os.path.join(OUT, 'evidence', prop + '.json')
     with open(p, 'w') as f:
         json.dump(ev, f, indent=1, default=str)
     return p
